@@ -39,6 +39,7 @@ def run(ctx):
         ctx.guarded("R-C10-announce", announce, ctx, prog, ver)
         ctx.guarded("R-C10-unsolicited", unsolicited, ctx, prog, ver)
         ctx.guarded("R-C10-readb", readb_no_frame_dropped, ctx, prog, ver)
+        ctx.guarded("R-C10-announce", answered_means_flushed, ctx, prog, ver)
 
 
 def capacity(ctx, prog, ver):
@@ -320,6 +321,28 @@ def unsolicited(ctx, prog, ver):
                     errs.append(bi)
         if errs:
             ctx.ok(rule, b.id, "has an Err(StateError::Unsolicited) exit (%d sites)" % len(errs))
+            # "... rather than corrupting its bookkeeping": nothing has been booked yet when the error is raised —
+            # no bit set or cleared in outgoing_rel / incoming_pub, no change of the inflight count
+            effects = []
+            for bb, t in b.calls():
+                if b.is_cleanup(bb):
+                    continue
+                fs = [x.split(".")[-1] for x in (receiver_fields(b, t) or [])]
+                if re.search(r"FixedBitSet::(insert|set|put|toggle|clear|set_range|insert_range)$", callee_path(t)) and fs[-1:] and fs[-1] in ("outgoing_rel", "incoming_pub"):
+                    effects.append((bb, "%s.%s" % (fs[-1], callee_path(t).rsplit("::", 1)[-1]), t.get("sp")))
+            for bi, blk in enumerate(b.blocks):
+                if blk.get("cleanup"):
+                    continue
+                for st in blk["s"]:
+                    if "lhs" in st and st["lhs"]["l"] == 1 and [x.split(".")[-1] for x in place_fields(st["lhs"])][-1:] == ["inflight"]:
+                        effects.append((bi, "inflight", st.get("sp")))
+            bad = [(eb, what, sp) for eb, what, sp in effects if reachable_after(b, [eb]) & set(errs)]
+            if not bad:
+                ctx.ok(rule, b.id, "no bookkeeping write (%d sites) precedes an Unsolicited exit" % len(effects))
+            for eb, what, sp in bad:
+                ctx.violation(rule, b.id, "booked before rejected: " + what,
+                              "%s updates %s and can still reject the packet as StateError::Unsolicited afterwards: the error leaves the bookkeeping changed (a release the client never owed is retransmitted after clean(), a later ack for that id is accepted and decrements the window)" % (name, what),
+                              site=b.loc(sp))
         else:
             ctx.violation(rule, b.id, "no Unsolicited exit", "%s no longer reports an ack it did not solicit as StateError::Unsolicited" % name, site=b.fn_loc())
 
@@ -361,3 +384,56 @@ def readb_no_frame_dropped(ctx, prog, ver):
         ctx.ok(rule, b.id, "the Some(..) arm of the frame match reaches handle_incoming_packet", site=b.loc(b.blocks[hip[0]]["t"].get("sp")))
     else:
         ctx.violation(rule, b.id, "decoded packet not handled", "readb no longer passes decoded packets to MqttState::handle_incoming_packet", site=b.fn_loc())
+
+
+def select_arm(body, fut_callee_regex):
+    """entry block of the tokio::select! arm whose future is created by a call matching fut_callee_regex"""
+    futs = [t["dest"]["l"] for bb, t in body.calls() if re.search(fut_callee_regex, callee_path(t)) and not body.is_cleanup(bb)]
+    if len(futs) != 1:
+        raise AnchorMissing("%s: expected one future created by %s, found %d" % (body.id, fut_callee_regex, len(futs)))
+    idx = None
+    for b in body.blocks:
+        for st in b["s"]:
+            if "lhs" in st and st["rv"]["k"] == "agg" and st["rv"].get("ak") == "tuple":
+                for i, o in enumerate(st["rv"]["ops"]):
+                    l = op_local(o)
+                    hops = 0
+                    while l is not None and l != futs[0] and hops < 3:
+                        d = single_def(body, l)
+                        l = op_local(d[3]["rv"]["a"]) if d and d[2] == "assign" and d[3]["rv"]["k"] == "use" else None
+                        hops += 1
+                    if l == futs[0]:
+                        idx = i
+    if idx is None:
+        raise AnchorMissing("%s: the select! futures tuple holding the %s future was not found" % (body.id, fut_callee_regex))
+    for sw in discr_switches(body, r"__tokio_select_util::Out$"):
+        tgt = sw[2].get("_%d" % idx)
+        if tgt is not None:
+            return tgt
+    raise AnchorMissing("%s: the match on the select! output (variant _%d) was not found" % (body.id, idx))
+
+
+def answered_means_flushed(ctx, prog, ver):
+    """'never announcing a write that did not happen': readb feeds its replies (PUBACK, PUBREC, PUBCOMP ...) into the
+    write buffer and announces each; when a LATER packet of the same batch fails, select() must still flush what was
+    answered before it gives up — otherwise the announcements are handed to the user for packets that never left."""
+    rule = "R-C10-announce"
+    pre = dict((v[0], v[2]) for v in VERSIONS)[ver]
+    body = prog.one("^" + re.escape(pre) + r"select::\{closure#0\}$")
+    entry = select_arm(body, r"framed::Network::readb$")
+    dom = dominators(body)
+    region = [bi for bi in range(len(body.blocks)) if entry in dom.get(bi, ()) and not body.blocks[bi].get("cleanup")]
+    flushes = [bb for bb, t in body.calls() if bb in region and callee_path(t).endswith("framed::Network::flush")]
+    exits = [bi for bi in region if body.blocks[bi]["t"]["k"] == "call" and callee_path(body.blocks[bi]["t"]).endswith("from_residual") and body.blocks[bi]["t"]["dest"]["l"] == 0]
+    exits += [bi for bi in region for st in body.blocks[bi]["s"] if "lhs" in st and st["lhs"]["l"] == 0 and not st["lhs"].get("p") and st["rv"]["k"] == "agg" and st["rv"].get("var") == "Err"]
+    if not flushes or not exits:
+        raise AnchorMissing("select() (%s): flush (%d) / error exits (%d) of the readb arm not found" % (ver, len(flushes), len(exits)))
+    bad = [e for e in exits if not must_pass(body, [entry], [e], via_blocks=set(flushes), include_from=True)]
+    if not bad:
+        ctx.ok(rule, body.id, "every error exit of the readb arm (%d) lies behind the flush of what was answered" % len(exits), site=body.loc(body.blocks[flushes[0]]["t"].get("sp")))
+    for e in bad:
+        sp = body.blocks[e]["t"].get("sp")
+        ctx.violation(rule, body.id, "replies announced but not flushed on readb's error",
+                      "the readb arm of select() returns readb's error (a later packet of the batch was unsolicited / malformed / the stream ended) before flushing: replies readb had already fed into the write buffer for earlier packets of the batch are dropped with the connection, "
+                      "but their Outgoing::PubAck/PubRec/PubComp notifications stay queued and are handed to the user — and whether the broker gets those acks depends on how its packets were chunked",
+                      site=body.loc(sp))
